@@ -782,6 +782,153 @@ Section MaskBranch.
   Qed.
 End MaskBranch.
 
+(* ------------------------------------------------------------------ 8. integer-list head *)
+
+Lemma select_map_In {A} (f : A -> bool) : forall l x, In x (select (map f l) l) -> f x = true /\ In x l.
+Proof.
+  induction l as [|y r IH]; intros x H; cbn in H; [contradiction|].
+  destruct (f y) eqn:E.
+  - destruct H as [<-|H]; [split; [exact E|now left]|]. destruct (IH x H). split; [assumption|now right].
+  - destruct (IH x H). split; [assumption|now right].
+Qed.
+
+Lemma local_list_positions h off : forall sel Pq, Forall (fun x => off <= x) sel ->
+  mapM (wrap_res h) (map (fun x => x - off) sel) = Ok Pq -> map (fun q => off + q) Pq = sel.
+Proof.
+  induction sel as [|x r IH]; intros Pq Hs H; cbn in H.
+  - injection H as <-. reflexivity.
+  - inversion Hs as [|? ? Hx Hr]; subst. unfold wrap_res at 1 in H.
+    destruct (wrap h (x - off)) as [q|] eqn:W; [|discriminate]. cbn [bind] in H.
+    destruct (mapM (wrap_res h) (map (fun x0 => x0 - off) r)) as [Pr|] eqn:E; [|discriminate]. cbn [bind] in H.
+    injection H as <-. assert (Hnn : 0 <= x - off) by lia. destruct (wrap_nonneg _ _ _ Hnn W) as [-> _].
+    cbn [map]. rewrite (IH Pr Hr eq_refl). f_equal. lia.
+Qed.
+
+Lemma wrap_all_norm total : forall l P, mapM (wrap_res total) l = Ok P ->
+  P = map (fun z => if z <? 0 then z + total else z) l /\ Forall (fun x => 0 <= x) P.
+Proof.
+  induction l as [|z r IH]; intros P H; cbn in H.
+  - injection H as <-. split; [reflexivity|constructor].
+  - unfold wrap_res at 1 in H. destruct (wrap total z) as [p|] eqn:W; [|discriminate]. cbn [bind] in H.
+    destruct (mapM (wrap_res total) r) as [Pr|] eqn:E; [|discriminate]. cbn [bind] in H. injection H as <-.
+    destruct (IH Pr eq_refl) as [-> HF]. destruct (wrap_norm _ _ _ W) as [-> Hr].
+    split; [reflexivity|]. constructor; [lia|exact HF].
+Qed.
+
+Section ListBranch.
+  Context (ps : list cpart) (fs : list nd) (T : list Z) (dt : Z) (tail : list aidx) (S : list sel).
+  Context (HP : Forall2 (part_ok T dt) ps fs).
+  Context (HT : List.length tail = List.length T).
+  Context (HS : mapM (fun p => resolve (fst p) (snd p)) (combine T tail) = Ok S).
+  Context (Hne : ps <> []).
+  Context (Hlen : Forall (fun p => 0 <= part_len p) ps).
+
+  Let lens := map part_len ps.
+  Let starts := starts_from 0 lens.
+  Let CH := List.concat (map (fun f => children (nd_body f)) fs).
+  Let total := zsum lens.
+  Let k := List.length ps.
+  Let LN : Forall (fun h => 0 <= h) lens := lens_nonneg ps Hlen.
+  Let R := row CH S.
+
+  Definition filled (o : option tree) (x : Z) : Prop := o = None \/ o = Some (R x).
+
+  Lemma scatter_inv ind : forall out inds xs out',
+    List.length inds = List.length xs ->
+    scatter out inds ind (map R (select (map (fun i => i =? ind) inds) xs)) = Ok out' ->
+    Forall2 filled out xs -> Forall2 filled out' xs.
+  Proof.
+    induction out as [|o out IH]; intros inds xs out' HL HSc HF.
+    - inversion HF; subst. destruct inds; [|discriminate]. cbn in HSc. injection HSc as <-. constructor.
+    - inversion HF as [|? x ? xs' Ho HF']; subst. destruct inds as [|i inds]; [discriminate|].
+      cbn [map select scatter] in HSc. destruct (i =? ind) eqn:E.
+      + cbn [map] in HSc.
+        destruct (scatter out inds ind _) as [t|] eqn:ET; [|discriminate]. cbn [bind] in HSc. injection HSc as <-.
+        constructor; [right; reflexivity|]. eapply IH; [|exact ET|exact HF']. cbn in HL. lia.
+      + destruct (scatter out inds ind _) as [t|] eqn:ET; [|discriminate]. cbn [bind] in HSc. injection HSc as <-.
+        constructor; [exact Ho|]. eapply IH; [|exact ET|exact HF']. cbn in HL. lia.
+  Qed.
+
+  Context (xs : list Z) (Hxs : Forall (fun x => 0 <= x) xs).
+  Let inds := map (find_indexer starts) xs.
+
+  Lemma scatter_parts_inv : forall n i out out', (i + n = k)%nat ->
+    scatter_parts (skipn i ps) (Z.of_nat i) (skipn i starts) xs inds tail out = Ok out' ->
+    Forall2 filled out xs -> Forall2 filled out' xs.
+  Proof.
+    assert (Hl : List.length lens = k) by (unfold lens, k; apply map_length).
+    assert (LE : lens <> []) by (unfold lens; destruct ps; [congruence|discriminate]).
+    set (pd := mk_cpart (mk_lazyidx [] [] [] 0) (Leaf 0)).
+    induction n as [|n IH]; intros i out out' Hi HSP HF.
+    - rewrite skipn_all2 in HSP by (fold k; lia). cbn in HSP. now injection HSP as <-.
+    - assert (Hik : (i < k)%nat) by lia.
+      rewrite (skipn_nth_cons ps i pd) in HSP by exact Hik.
+      rewrite (skipn_nth_cons starts i 0) in HSP by (unfold starts; rewrite starts_from_length, Hl; exact Hik).
+      cbn [scatter_parts] in HSP.
+      assert (Hoff : nth i starts 0 = bnd lens i).
+      { unfold starts. rewrite starts_from_nth by (rewrite Hl; exact Hik). lia. }
+      rewrite Hoff in HSP.
+      set (mask := map (fun j => j =? Z.of_nat i) inds) in *.
+      assert (Hstep : exists out1, (if existsb (fun b => b) mask
+                       then sub <- part_get (nth i ps pd) (AList (map (fun z => z - bnd lens i) (select mask xs)) :: tail) ;;
+                            scatter out inds (Z.of_nat i) (children (nd_body (a_nd sub)))
+                       else Ok out) = Ok out1 /\
+                     scatter_parts (skipn (Datatypes.S i) ps) (Z.of_nat i + 1) (skipn (Datatypes.S i) starts) xs inds tail out1 = Ok out').
+      { destruct (if existsb (fun b => b) mask then _ else _) as [out1|]; [|discriminate]. eauto. }
+      destruct Hstep as [out1 [H1 H2]].
+      replace (Z.of_nat i + 1) with (Z.of_nat (Datatypes.S i)) in H2 by lia.
+      apply (IH (Datatypes.S i) out1 out' ltac:(lia) H2).
+      destruct (existsb (fun b => b) mask); [|now injection H1 as <-].
+      destruct (part_get (nth i ps pd) _) as [sub|] eqn:EG; [|discriminate]. cbn [bind] in H1.
+      destruct (part_rows ps fs T dt tail S HP HT HS Hlen _ pd _ _ Hik EG) as [Pq [d [ER [_ [HN _]]]]].
+      fold lens in ER, HN. fold CH in HN.
+      cbn [resolve] in ER. destruct (mapM (wrap_res _) _) as [Pq'|] eqn:EW; [|discriminate].
+      cbn [bind] in ER. injection ER as <- <-.
+      assert (Hsel : Forall (fun x => bnd lens i <= x) (select mask xs)).
+      { apply Forall_forall. intros x Hx. unfold mask, inds in Hx. rewrite map_map in Hx.
+        apply select_map_In in Hx. destruct Hx as [Hfi Hin].
+        rewrite Forall_forall in Hxs. specialize (Hxs x Hin).
+        destruct (find_indexer_spec lens x LN LE Hxs) as [_ [B2 _]]. fold starts in B2.
+        replace (Z.to_nat (find_indexer starts x)) with i in B2 by lia. exact B2. }
+      pose proof (local_list_positions _ _ _ _ Hsel EW) as LP.
+      rewrite HN in H1. cbn [nd_body children] in H1. rewrite LP in H1.
+      apply (scatter_inv (Z.of_nat i) out inds xs out1); [unfold inds; apply map_length|exact H1|exact HF].
+  Qed.
+
+  Lemma filled_all : forall rows ys rows', Forall2 filled rows ys ->
+    mapM (fun o => match o with Some t => Ok t | None => Err end) rows = Ok rows' -> rows' = map R ys.
+  Proof.
+    induction rows as [|o r IH]; intros ys rows' HF H; inversion HF as [|? y ? ys' Ho HF']; subst; cbn in H.
+    - now injection H as <-.
+    - destruct o as [t|]; [|discriminate]. cbn [bind] in H.
+      destruct (mapM _ r) as [r'|] eqn:E; [|discriminate]. cbn [bind] in H. injection H as <-.
+      destruct Ho as [Ho|Ho]; [discriminate|]. injection Ho as ->. cbn [map]. f_equal. eapply IH; eauto.
+  Qed.
+End ListBranch.
+
+Lemma head_list ps fs T dt tail S l out :
+  Forall2 (part_ok T dt) ps fs -> List.length tail = List.length T ->
+  mapM (fun p => resolve (fst p) (snd p)) (combine T tail) = Ok S ->
+  ps <> [] -> Forall (fun p => 0 <= part_len p) ps ->
+  c_head ps dt (zsum (map part_len ps)) S (AList l) tail = Ok out ->
+  exists hs, resolve (zsum (map part_len ps)) (AList l) = Ok hs /\ head_result fs dt S out hs.
+Proof.
+  intros HP HT HS Hne Hlen HC. cbn [c_head] in HC.
+  set (total := zsum (map part_len ps)) in *.
+  destruct (mapM (wrap_res total) l) as [P|] eqn:EW; [|discriminate]. cbn [bind] in HC.
+  destruct (wrap_all_norm _ _ _ EW) as [HPn HPos].
+  rewrite <- HPn in HC.
+  destruct (scatter_parts _ _ _ _ _ _ _) as [rows|] eqn:ESP in HC; [|discriminate]. cbn [bind] in HC.
+  destruct (mapM _ rows) as [rows'|] eqn:ER in HC; [|discriminate]. cbn [bind] in HC. injection HC as <-.
+  assert (HF0 : Forall2 (filled fs S) (repeat None (List.length l)) P).
+  { apply mapM_ok_length in EW. rewrite <- EW. clear. induction P; cbn; constructor; auto. now left. }
+  pose proof (scatter_parts_inv ps fs T dt tail S HP HT HS Hne Hlen P HPos (List.length ps) 0 _ _ eq_refl ESP HF0) as HF.
+  pose proof (filled_all fs S _ _ _ HF ER) as ->.
+  exists (P, false). split; [cbn [resolve]; rewrite EW; reflexivity|].
+  split; [reflexivity|]. cbn [a_nd take_shape]. rewrite take_node. f_equal. f_equal.
+  apply mapM_ok_length in EW. unfold zlen. now rewrite EW.
+Qed.
+
 (* ------------------------------------------------------------------ 6. assembly *)
 
 Section Core.
@@ -794,17 +941,12 @@ Section Core.
   Let CH := List.concat (map (fun f => children (nd_body f)) fs).
   Let total := zsum lens.
 
-  (* head kinds whose branch is proved below *)
-  Definition head_proved (head : aidx) : Prop :=
-    match head with AInt _ | ASlice _ _ _ | AMask _ => True | AList _ => False end.
-
   Lemma head_all tail S head out0 : List.length tail = List.length T ->
     mapM (fun p => resolve (fst p) (snd p)) (combine T tail) = Ok S ->
-    head_proved head ->
     c_head ps dt total S head tail = Ok out0 ->
     exists hs, resolve total head = Ok hs /\ head_result fs dt S out0 hs.
   Proof.
-    intros HT HS Hh HC. destruct head as [z|a b cc|m|l]; try contradiction.
+    intros HT HS HC. destruct head as [z|a b cc|m|l].
     - exact (head_scalar ps fs T dt tail S HP HT HS Hne Hlen z out0 HC).
     - cbn [c_head] in HC. fold lens in HC. fold total in HC.
       destruct (slice_indices total a b cc) as [[[start stop] st]|] eqn:ESI; [|discriminate].
@@ -826,15 +968,15 @@ Section Core.
       + cbn [resolve]. now rewrite EL.
       + assert (Hm : zlen m = total) by lia.
         exact (head_mask_chunks ps fs T dt tail S HP HT HS Hlen m Hm chunks out0 EM HC).
+    - exact (head_list ps fs T dt tail S l out0 HP HT HS Hne Hlen HC).
   Qed.
 
   Lemma concat_core ts ixs out :
     c_initial_dtype ps = Ok dt ->
-    head_proved (hd full (pad_to (Datatypes.S (List.length T)) ixs)) ->
     c_getitem (mk_concat ps ts) ixs = Ok out ->
     (r <- oindex (mk_nd (total :: T) (Node CH)) ixs ;; apply_transforms ts (mk_arr dt r)) = Ok out.
   Proof.
-    intros Hdt Hh HG. unfold c_getitem in HG. cbn [c_parts c_ts] in HG.
+    intros Hdt HG. unfold c_getitem in HG. cbn [c_parts c_ts] in HG.
     assert (HI : c_initial_shape ps = Ok (total :: T) \/ c_initial_shape ps = Err).
     { unfold c_initial_shape. destruct ps as [|p r] eqn:EP; [now right|].
       destruct (forallb _ r); [left|now right]. inversion HP as [|? f ? fs' H0 _]; subst.
@@ -846,11 +988,180 @@ Section Core.
     { pose proof (pad_to_length (Datatypes.S (List.length T)) ixs) as PL. rewrite EPad in PL. cbn in PL. lia. }
     destruct (mapM _ (combine T tail)) as [S|] eqn:ES in HG; [|discriminate]. cbn [bind] in HG.
     destruct (c_head ps dt total S head tail) as [out0|] eqn:EH; [|discriminate]. cbn [bind] in HG.
-    cbn [hd] in Hh.
-    destruct (head_all tail S head out0 HT ES Hh EH) as [hs [ER [HD HN]]].
+    destruct (head_all tail S head out0 HT ES EH) as [hs [ER [HD HN]]].
     unfold oindex, resolve_all. cbn [nd_shape nd_body List.length]. rewrite EPad.
     cbn [combine mapM fst snd]. rewrite ER. cbn [bind]. rewrite ES. cbn [bind].
     destruct out0 as [d0 n0]. cbn [a_dtype a_nd] in HD, HN. subst d0 n0. exact HG.
   Qed.
 End Core.
 
+
+(* ------------------------------------------------------------------ 9. from the constructor to the core statement *)
+
+Definition used_of {A} (nz : A -> bool) (l : list A) : list A :=
+  match filter nz l with [] => firstn 1 l | _ :: _ => filter nz l end.
+
+Lemma filter_sum {A} (w : A -> Z) nz : forall l, (forall a, In a l -> nz a = false -> w a = 0) ->
+  zsum (map w (filter nz l)) = zsum (map w l).
+Proof.
+  induction l as [|a r IH]; intro H; [reflexivity|]. cbn [filter].
+  assert (Hr : forall a0, In a0 r -> nz a0 = false -> w a0 = 0) by (intros; apply H; [now right|assumption]).
+  destruct (nz a) eqn:E; cbn [map zsum fold_right].
+  - fold (zsum (map w (filter nz r))). fold (zsum (map w r)). now rewrite IH.
+  - fold (zsum (map w r)). rewrite (H a (or_introl eq_refl) E). rewrite IH by assumption. lia.
+Qed.
+
+Lemma used_sum {A} (w : A -> Z) nz l : (forall a, In a l -> nz a = false -> w a = 0) ->
+  zsum (map w (used_of nz l)) = zsum (map w l).
+Proof.
+  intro H. unfold used_of. pose proof (filter_sum w nz l H) as FS.
+  destruct (filter nz l) as [|x ne] eqn:E; [|exact FS].
+  cbn in FS. rewrite <- FS. destruct l as [|a r]; [reflexivity|]. cbn [firstn map zsum fold_right].
+  cbn [filter] in E. destruct (nz a) eqn:Ea; [discriminate|]. rewrite (H a (or_introl eq_refl) Ea). reflexivity.
+Qed.
+
+Lemma filter_concat {A B} (g : A -> list B) nz : forall l, (forall a, In a l -> nz a = false -> g a = []) ->
+  List.concat (map g (filter nz l)) = List.concat (map g l).
+Proof.
+  induction l as [|a r IH]; intro H; [reflexivity|]. cbn [filter].
+  assert (Hr : forall a0, In a0 r -> nz a0 = false -> g a0 = []) by (intros; apply H; [now right|assumption]).
+  destruct (nz a) eqn:E; cbn [map List.concat].
+  - now rewrite IH.
+  - rewrite (H a (or_introl eq_refl) E). now rewrite IH.
+Qed.
+
+Lemma used_concat {A B} (g : A -> list B) nz l : (forall a, In a l -> nz a = false -> g a = []) ->
+  List.concat (map g (used_of nz l)) = List.concat (map g l).
+Proof.
+  intro H. unfold used_of. pose proof (filter_concat g nz l H) as FS.
+  destruct (filter nz l) as [|x ne] eqn:E; [|exact FS].
+  cbn in FS. rewrite <- FS. destruct l as [|a r]; [reflexivity|]. cbn [firstn map List.concat].
+  cbn [filter] in E. destruct (nz a) eqn:Ea; [discriminate|]. rewrite (H a (or_introl eq_refl) Ea). reflexivity.
+Qed.
+
+Lemma Forall2_impl' {A B} (P Q : A -> B -> Prop) l1 l2 : (forall a b, P a b -> Q a b) -> Forall2 P l1 l2 -> Forall2 Q l1 l2.
+Proof. intros H. induction 1; constructor; auto. Qed.
+
+Lemma Forall2_in_r {A B} (Rel : A -> B -> Prop) l1 l2 b : Forall2 Rel l1 l2 -> In b l2 -> exists a, Rel a b.
+Proof. induction 1 as [|x y ? ? H _ IH]; intro Hin; [contradiction|]. destruct Hin as [<-|Hin]; eauto. Qed.
+
+Lemma Forall2_filter {A B} (Rel : A -> B -> Prop) (f : A -> bool) (g : B -> bool) l1 l2 :
+  Forall2 (fun a b => Rel a b /\ f a = g b) l1 l2 -> Forall2 Rel (filter f l1) (filter g l2).
+Proof.
+  induction 1 as [|a b l1 l2 [HR He] _ IH]; [constructor|]. cbn [filter]. rewrite <- He.
+  destruct (f a); [constructor; assumption|assumption].
+Qed.
+
+Lemma used_Forall2 {A B} (Rel : A -> B -> Prop) (f : A -> bool) (g : B -> bool) l1 l2 :
+  Forall2 (fun a b => Rel a b /\ f a = g b) l1 l2 -> Forall2 Rel (used_of f l1) (used_of g l2).
+Proof.
+  intro H. pose proof (Forall2_filter Rel f g l1 l2 H) as HF. unfold used_of.
+  destruct HF as [|a b r1 r2 H1 H2]; [|constructor; assumption].
+  destruct H as [|a b l1 l2 [HR _] _]; cbn; constructor; [exact HR|constructor].
+Qed.
+
+Lemma list_eqb_eq : forall a b, list_eqb a b = true -> a = b.
+Proof.
+  induction a as [|x a IH]; intros [|y b] H; cbn in H; try discriminate; [reflexivity|].
+  apply andb_prop in H. destruct H as [H1 H2]. f_equal; [lia|now apply IH].
+Qed.
+
+Definition raw_ok (dt : Z) (r : craw) : Prop :=
+  Forall (fun d => 0 <= d) (r_shape r) /\ r_shape r <> [] /\ r_dt r = dt.
+
+Definition PF (dt : Z) (p : cpart) (f : nd) : Prop :=
+  part_ok (tl (nd_shape f)) dt p f /\ 0 <= part_len p /\ part_len p = hd 0 (nd_shape f) /\ li_dtype0 (cp_li p) = dt.
+
+Lemma parts_fulls dt : forall raws psA fulls, Forall (raw_ok dt) raws ->
+  mapM (fun r => li <- mk_lazy (r_shape r) (r_keep r) [] (r_dt r) ;; Ok (mk_cpart li (r_ds r))) raws = Ok psA ->
+  mapM (fun r => oindex_keep (mk_nd (r_shape r) (r_ds r)) (r_keep r)) raws = Ok fulls ->
+  Forall2 (PF dt) psA fulls.
+Proof.
+  induction raws as [|r raws IH]; intros psA fulls HR HM HF; cbn in HM, HF.
+  - injection HM as <-. injection HF as <-. constructor.
+  - inversion HR as [|? ? [R1 [R2 R3]] HR']; subst.
+    destruct (mk_lazy _ _ _ _) as [li|] eqn:EL; [|discriminate]. cbn [bind] in HM.
+    destruct (mapM _ raws) as [ps'|] eqn:EM in HM; [|discriminate]. cbn [bind] in HM. injection HM as <-.
+    destruct (oindex_keep _ _) as [a1|] eqn:EO; [|discriminate]. cbn [bind] in HF.
+    destruct (mapM _ raws) as [fs'|] eqn:EF in HF; [|discriminate]. cbn [bind] in HF. injection HF as <-.
+    constructor; [|apply IH; auto].
+    destruct (part_ok_of_raw r li a1 R1 R2 EL EO) as [PO PL].
+    destruct (mk_lazy_fields _ _ _ _ _ _ _ R1 EL EO) as [_ [_ [_ [F4 _]]]].
+    split; [exact PO|]. split; [exact PL|]. split; [|exact F4].
+    destruct PO as [Hsh _]. rewrite Hsh. reflexivity.
+Qed.
+
+(* C05_concat: for every list of raw parts (any number, some empty, each with its own first stage), every index
+   tuple and every transform chain: if the concatenated indexer answers, the answer is the same index applied to
+   the concatenation of the parts' first-stage results, then the transforms (values, shape, dtype). *)
+Lemma c_mk_used raws ts c : c_mk raws ts = Ok c ->
+  exists psA, mapM (fun r => li <- mk_lazy (r_shape r) (r_keep r) [] (r_dt r) ;; Ok (mk_cpart li (r_ds r))) raws = Ok psA
+    /\ c = mk_concat (used_of (fun p => negb (part_len p =? 0)) psA) ts.
+Proof.
+  unfold c_mk. destruct (mapM _ raws) as [psA|]; [|discriminate]. cbn [bind]. cbv zeta.
+  destruct (c_shape _); [|discriminate]. cbn [bind]. destruct (c_dtype _); [|discriminate]. cbn [bind].
+  intro H. injection H as <-. exists psA. split; [reflexivity|]. unfold used_of. reflexivity.
+Qed.
+
+Lemma concat_correct dt raws ts ix c out fulls :
+  Forall (raw_ok dt) raws ->
+  mapM (fun r => oindex_keep (mk_nd (r_shape r) (r_ds r)) (r_keep r)) raws = Ok fulls ->
+  c_mk raws ts = Ok c -> c_getitem c ix = Ok out ->
+  spec_concat raws ts ix = Ok out.
+Proof.
+  intros HR HFu HM HG. destruct (c_mk_used _ _ _ HM) as [psA [EP ->]].
+  pose proof (parts_fulls dt raws psA fulls HR EP HFu) as HPF.
+  set (nzp := fun p : cpart => negb (part_len p =? 0)) in *.
+  set (nzf := fun a : nd => negb (hd 0 (nd_shape a) =? 0)).
+  assert (HU : Forall2 (PF dt) (used_of nzp psA) (used_of nzf fulls)).
+  { apply used_Forall2. eapply Forall2_impl'; [|exact HPF]. intros p f H. split; [exact H|].
+    destruct H as [_ [_ [H _]]]. unfold nzp, nzf. now rewrite H. }
+  (* the dropped parts carry no rows *)
+  assert (HW : zsum (map part_len (used_of nzp psA)) = zsum (map (fun a => hd 0 (nd_shape a)) fulls)).
+  { rewrite <- (used_sum (fun a => hd 0 (nd_shape a)) nzf fulls).
+    - clear -HU. induction HU as [|p f l l' H _ IH]; [reflexivity|]. cbn [map zsum fold_right].
+      fold (zsum (map part_len l)). fold (zsum (map (fun a => hd 0 (nd_shape a)) l')). rewrite IH.
+      destruct H as [_ [_ [H _]]]. now rewrite H.
+    - intros a _ Ha. unfold nzf in Ha. lia. }
+  assert (HC : List.concat (map (fun f => children (nd_body f)) (used_of nzf fulls))
+               = List.concat (map (fun f => children (nd_body f)) fulls)).
+  { apply used_concat. intros a Hin Ha. unfold nzf in Ha.
+    destruct (Forall2_in_r _ _ _ _ HPF Hin) as [p [[_ [_ [[ch [Hb Hl]] _]]] [_ [Hlen _]]]].
+    rewrite Hb. cbn [children]. destruct ch; [reflexivity|]. rewrite zlen_cons in Hl. pose proof (zlen_nonneg ch). lia. }
+  (* the indexer answered: tails and dtypes of the used parts agree *)
+  remember (used_of nzp psA) as used eqn:EU. remember (used_of nzf fulls) as fused eqn:EFu.
+  assert (HG' := HG). unfold c_getitem in HG'. cbn [c_parts c_ts] in HG'.
+  destruct (c_initial_shape used) as [init|] eqn:EI; [|discriminate]. cbn [bind] in HG'.
+  destruct (c_initial_dtype used) as [d0|] eqn:ED; [|discriminate]. clear HG'.
+  destruct HU as [|p0 f0 ur fr HP0 HUr]; [discriminate|].
+  set (T := part_tail p0).
+  unfold c_initial_shape in EI. destruct (forallb _ ur) eqn:EB in EI; [|discriminate]. clear EI init.
+  assert (HPO : Forall2 (part_ok T dt) (p0 :: ur) (f0 :: fr)).
+  { constructor.
+    - destruct HP0 as [PO _]. assert (E : tl (nd_shape f0) = T) by (destruct PO as [_ [E _]]; now rewrite <- E).
+      now rewrite E in PO.
+    - rewrite forallb_forall in EB. clear -HUr EB. induction HUr as [|q f ur' fr' H _ IH]; [constructor|].
+      constructor; [|apply IH; intros x Hx; apply EB; now right].
+      destruct H as [PO _]. specialize (EB q ltac:(now left)). apply list_eqb_eq in EB.
+      assert (E : tl (nd_shape f) = part_tail p0) by (destruct PO as [_ [E _]]; now rewrite <- E, <- EB).
+      now rewrite E in PO. }
+  assert (HL : Forall (fun p => 0 <= part_len p) (p0 :: ur)).
+  { constructor; [destruct HP0 as [_ [H _]]; exact H|]. clear -HUr.
+    induction HUr as [|q f ? ? H _ IH]; constructor; auto. destruct H as [_ [H _]]. exact H. }
+  assert (HD : c_initial_dtype (p0 :: ur) = Ok dt).
+  { unfold c_initial_dtype in *. destruct (forallb _ ur) in ED |- *; [|discriminate].
+    destruct HP0 as [_ [_ [_ H]]]. now rewrite H. }
+  pose proof (concat_core (p0 :: ur) (f0 :: fr) T dt HPO ltac:(discriminate) HL ts ix out HD HG) as CC.
+  (* the spec side *)
+  unfold spec_concat. rewrite HFu. cbn [bind].
+  change (match filter (fun a : nd => negb (hd 0 (nd_shape a) =? 0)) fulls with
+          | [] => firstn 1 fulls | _ :: _ => filter (fun a : nd => negb (hd 0 (nd_shape a) =? 0)) fulls end)
+    with (used_of nzf fulls). rewrite <- EFu.
+  rewrite <- HW. unfold cat. rewrite flat_map_concat_map, map_map. rewrite <- HC.
+  assert (ET : tl (nd_shape f0) = T) by (destruct HP0 as [[_ [E _]] _]; now rewrite <- E).
+  rewrite ET.
+  assert (EDt : match raws with [] => 0 | r0 :: _ => r_dt r0 end = dt).
+  { destruct raws as [|r0 rr]; [|inversion HR as [|? ? [_ [_ H]] _]; exact H].
+    cbn in EP. injection EP as <-. discriminate. }
+  rewrite EDt. exact CC.
+Qed.
